@@ -391,6 +391,12 @@ Definition txt (s : string) : bool :=
 Definition vtxt (s : string) : bool :=
   plain s && String.eqb (py_strip s) s && no_char "{" s && no_char "}" s
   && (String.eqb s "" || negb (String.eqb (py_strip (remove_char "," s)) "")).
+(* the NAME of a member (operation, attribute, parameter, literal) or of an association: what the header of its blob can hold
+   between the quotes (UmlDomain.nameok: = < > ( ) , : are ordinary characters -- operator<, operator() -- since the repair of
+   K-C19-7), without braces *)
+Definition nbr (s : string) : bool := no_char "{" s && no_char "}" s.
+Definition ntxt (s : string) : bool := nameok s && nbr s.
+Definition mname (s : string) : bool := ntxt s && negb (String.eqb s "").
 Definition ident (s : string) : bool := txt s && no_char ":" s && negb (String.eqb s "").
 Definition noise_key (k : string) : bool :=
   plain k && no_char SP k && no_char "," k && no_char "{" k && no_char "}" k && negb (String.eqb k "")
@@ -481,23 +487,23 @@ Definition path_ok (S : sdiagram) (ids : list string) : bool :=
 Definition tpath_ok (S : sdiagram) (ids : list string) : bool := path_ok S ids && type_ok (type_name S ids).
 
 Definition param_ok (S : sdiagram) (p : sparam) : bool :=
-  nl_ok (sp_nl p) && ident (sp_id p) && txt (sp_name p) && no_char ":" (sp_name p)
+  nl_ok (sp_nl p) && ident (sp_id p) && nameok (sp_name p) && nbr (sp_name p)
   && match sp_basic p with Some s => type_ok s | None => negb (match sp_type p with [] => true | _ => false end) && tpath_ok S (sp_type p) end
   && vtxt (sp_mod p) && vtxt (sp_default p) && vtxt (sp_mult p) && layout_ok (param_item p) (sp_layout p) && inerts_ok KParam (sp_layout p).
 Definition code_ok (o : option string) : bool := match o with Some c => txt c && negb (String.eqb c "") && negb (prefixb dq c) | None => true end.
 Definition op_ok (S : sdiagram) (o : sop) : bool :=
-  nl_ok (so_nl o) && ident (so_id o) && ident (so_name o) && code_ok (so_vis o)
+  nl_ok (so_nl o) && ident (so_id o) && mname (so_name o) && code_ok (so_vis o)
   && match so_ret o with [] => true | ids => tpath_ok S ids end
   && vtxt (so_retmod o) && doc_ok (tabsn (so_nl o) 3) (so_doc o) && forallb (param_ok S) (so_params o) && layout_ok (op_item o) (so_layout o) && inerts_ok KOp (so_layout o).
 Definition attr_ok (S : sdiagram) (a : sattr) : bool :=
-  nl_ok (sa_nl a) && ident (sa_id a) && txt (sa_name a) && no_char ":" (sa_name a) && code_ok (sa_vis a)
+  nl_ok (sa_nl a) && ident (sa_id a) && nameok (sa_name a) && nbr (sa_name a) && code_ok (sa_vis a)
   && match sa_type a with [] => true | ids => tpath_ok S ids end
   && vtxt (sa_mod a) && vtxt (sa_mult a) && doc_ok (tabsn (sa_nl a) 3) (sa_doc a) && vtxt (sa_init a) && layout_ok (attr_item a) (sa_layout a) && inerts_ok KAttr (sa_layout a).
 Definition member_ok (S : sdiagram) (m : smember) : bool :=
   match m with
   | MOp o => op_ok S o
   | MAttr a => attr_ok S a
-  | MLit id name nl noise => nl_ok nl && ident id && ident name && layout_ok (fun _ => None) noise && inerts_ok KNone noise
+  | MLit id name nl noise => nl_ok nl && ident id && mname name && layout_ok (fun _ => None) noise && inerts_ok KNone noise
   end.
 Definition class_ok (S : sdiagram) (c : sclass) : bool :=
   nl_ok (sc_nl c) && ident (sc_id c) && txt (sc_name c) && no_char ":" (sc_name c)
@@ -521,7 +527,7 @@ Definition end_ok (S : sdiagram) (from : bool) (e : send) : bool :=
 Definition assoc_ok (S : sdiagram) (x : sassoc) : bool :=
   (* the NAME of an association may hold colons (the reader does not use the header of its blob) *)
   nl_ok (sx_nl x) && ident (sx_id x) && negb (contains "documentation_plain" (sx_id x))
-  && match sx_name x with Some n => txt n && negb (contains "documentation_plain" n) | None => true end
+  && match sx_name x with Some n => ntxt n && negb (contains "documentation_plain" n) | None => true end
   && doc_ok (tabsn (sx_nl x) 1) (sx_doc x) && end_ok S true (sx_from x) && end_ok S false (sx_to x) && layout_ok (assoc_item x) (sx_layout x) && inerts_ok KAssoc (sx_layout x).
 
 Definition sdiagram_ok (S : sdiagram) : bool :=
